@@ -569,7 +569,7 @@ OPTION_SETS = [
 ]
 
 
-def gen_wf(rng):
+def gen_wf(rng, replication=None):
     n = rng.randint(2, 5)
     comps = []
     used = set()
@@ -578,6 +578,9 @@ def gen_wf(rng):
     # loader rewrites the references of a replica textually (`x1:ref` inside `stage0.x1:ref`), a replicated and a plain
     # producer of the same name in two stages make it reject a well-formed workflow (outside the property and the model)
     with_replication = rng.random() < 0.7
+    if replication is not None:
+        with_replication = replication      # (run() asks for one workflow without replication in every run: there
+        n = max(n, 4)                       #  component names are reused across the stages)
     for i in range(n):
         if i and rng.random() < 0.4:
             stage += 1
@@ -1517,7 +1520,7 @@ def run(ctx):
     schema_cases(ctx, base_flowir_for_schema())
     nwf = 6 if ctx.tier == 'quick' else 40
     wfs = [copy.deepcopy(CORPUS_WF), copy.deepcopy(CORPUS_WF_AGG), copy.deepcopy(CORPUS_WF_SIB)] + \
-        [gen_wf(ctx.rng) for _ in range(nwf)]
+        [gen_wf(ctx.rng, replication=(False if k == 0 else None)) for k in range(nwf)]
     items = []
     for w in wfs:
         items.append(('none', False, [], finalize(copy.deepcopy(w))))
